@@ -1,7 +1,7 @@
 """C04 — backends reject what they cannot emulate instead of returning wrong results (DESIGN.md §4 C04).
 
 Tie: SVBackendImpl.__init__ guards are re-extracted (fail closed) into coq/Gen/SvGuards.v and
-create_impl / DMRGBackendImpl guard into coq/Gen/Guards.v (shared with C33) on every run; the
+create_impl / DMRGBackendImpl guard into coq/Gen/Dispatch.v (shared with C33) on every run; the
 remaining hand-written stages of Model/Accepts.v are validated by an exhaustive correspondence:
 every feature combination pulser lets one build is run for real and the outcome class compared.
 """
@@ -108,7 +108,7 @@ def extract_sv_guards(tree, lines=()):
 
 
 def gen():
-    out = c33.gen()  # Gen/Guards.v: create_impl, dmrg_init_guard
+    out = c33.gen_dispatch()  # Gen/Dispatch.v: create_impl, dmrg_init_guard
     tree = ast.parse(SV_SRC.read_text())
     text = ("(* GENERATED by tools/props/c04.py from emu_sv/sv_backend.py (_run_from_sequence_data) and emu_sv/sv_backend_impl.py (SVBackendImpl.__init__); do not edit. *)\n"
             "From Coq Require Import ZArith Bool.\nFrom EV Require Import Base.Arith.\n\n"
@@ -306,7 +306,7 @@ def corpus_cases():
 
 HEADER = """From Coq Require Import ZArith List String Bool.
 Import ListNotations.
-From EV Require Import Base.Arith Gen.Guards Gen.SvGuards Model.ConfigGuards Model.Accepts."""
+From EV Require Import Base.Arith Gen.Dispatch Gen.SvGuards Model.DispatchModel Model.Accepts."""
 REQ_CLOSED = HEADER + "\nFrom EV Require Import Properties.C04."
 
 
@@ -319,10 +319,10 @@ def run(ctx):
     try:
         for path, text in gen():
             common.write_if_changed(path, text)
-        ctx.obligation("translate:sv_backend_impl.py->Gen/SvGuards.v,mps_backend_impl.py->Gen/Guards.v", True,
+        ctx.obligation("translate:sv_backend_impl.py->Gen/SvGuards.v,mps_backend_impl.py->Gen/Dispatch.v", True,
                        kind="translator")
     except (Unsupported, SyntaxError, OSError) as ex:
-        ctx.obligation("translate:sv_backend_impl.py->Gen/SvGuards.v,mps_backend_impl.py->Gen/Guards.v", False,
+        ctx.obligation("translate:sv_backend_impl.py->Gen/SvGuards.v,mps_backend_impl.py->Gen/Dispatch.v", False,
                        str(ex), kind="translator")
         gen_ok = False
     model_ok = False
